@@ -304,7 +304,12 @@ func (kde *KDE) Bounds() (low float64, high float64) {
 	// Explicitly accept discontinuities, since we may be using a
 	// discontiguous kernel.
 	low, _ = bisect(func(x float64) float64 { return kde.CDF(x) - lowY }, lowX, highX, tolerance)
-	high, _ = bisect(func(x float64) float64 { return kde.CDF(x) - highY }, lowX, highX, tolerance)
+	high, ok := bisect(func(x float64) float64 { return kde.CDF(x) - highY }, lowX, highX, tolerance)
+	if !ok && kde.CDF(high) < highY {
+		// bisect stopped just below a jump of the CDF; the
+		// mass of the jump belongs inside the bounds.
+		high = math.Nextafter(high, math.Inf(1))
+	}
 
 	// Expand width by 20% to give some margins
 	width := high - low
